@@ -190,7 +190,12 @@ pub fn run(seed: u64, ntraces: usize) {
             g.its_tx("registerMetadata", &u, "registerTokenMetadata", vec![tok.clone()], 777, &[], json!({"token": hx(&tok)}));
             let ow = g.owner.clone();
             g.its_tx("removeTrusted", &ow, "removeTrustedAddress", vec![b"axelar".to_vec()], 0, &[], json!({"chain": hx(b"axelar")}));
-            script.extend([22u64, 48, 49, 44, 48, 44, 44, 76, 44, 9]);   // then: a stale operatorship proposal (propose, hand the role on, accept), and a fresh one accepted twice
+            // ... and a remote canonical deployment to a chain with a DIRECT peer: the hub's address is not needed, the lookup callback forwards the gas
+            { let u0 = g.users[0].clone();
+              let (okr, retsr, depr) = g.its_tx("registerCanonical", &u0, "registerCanonicalInterchainToken", vec![tok.clone()], 0, &[], json!({"token": hx(&tok)}));
+              if okr { g.toks.push(Tok { id: retsr.last().unwrap().clone(), kind: "lock", tm: depr.unwrap(), token: Some(tok.clone()), salt: vec![], deployer: u0.clone(), supply: 0, minter: vec![], custody: 0 });
+                  g.its_tx("deployRemoteCanonical", &u0, "deployRemoteCanonicalInterchainToken", vec![tok.clone(), b"ethereum".to_vec()], 444, &[], json!({"token": hx(&tok), "dchain": hx(b"ethereum")})); } }
+            script.extend([22u64, 22, 48, 49, 44, 48, 44, 44, 76, 44, 9]);   // then: a stale operatorship proposal (propose, hand the role on, accept), and a fresh one accepted twice
         }
         if d == 9 {   // F-C17-5: empty destination chain: the callback falls into the local branch
             let u = g.users[0].clone();
@@ -218,7 +223,7 @@ pub fn run(seed: u64, ntraces: usize) {
             else if d == 3 { script.extend([47u64, 46, 23, 46, 3]); }  // steps called with different arguments: (1000, minter) then (0, no minter)
             else if d == 17 { script.extend([27u64, 45, 3, 3, 26]); }     // (17): the second issuance FAILS after the first was recorded: the recorded token stays, a retry is refused
             else { script.extend([3u64, 23, 3, 3]); }
-            if d == 2 { script.extend([40u64, 50, 43, 41, 40, 19, 41, 40, 41]); script.extend([40u64, 51, 67, 53, 69, 41, 79]); }   // ... then: an approval is replaced while its chain is no longer trusted (refused), the chain is trusted again, the replacement is not usable, the original is   // the minter approves a remote deployment, hands the role on, then the stale approval is used                   // step 3, second issuance callback, step 3 again (twice)
+            if d == 2 { script.extend([40u64, 50, 43, 41, 40, 67, 41, 69]); script.extend([40u64, 51, 67, 53, 69, 41, 79]); script.extend([40u64, 19, 41, 40, 41]); }   // an approval is REPLACED by a second one (the first destination minter is refused, the second accepted);   // ... then: an approval is replaced while its chain is no longer trusted (refused), the chain is trusted again, the replacement is not usable, the original is   // the minter approves a remote deployment, hands the role on, then the stale approval is used                   // step 3, second issuance callback, step 3 again (twice)
         }
         if d == 1 || d == 6 || d >= 10 {
             // (1) an inbound link / deploy message for a token id that is already bound; (6) hub-wrapped inbound messages while paused
@@ -236,9 +241,14 @@ pub fn run(seed: u64, ntraces: usize) {
                     let u1 = g.users[1].clone();
                     g.its_tx("registerMetadata", &u1, "registerTokenMetadata", vec![tok.clone()], 555, &[], json!({"token": hx(&tok)}));
                     script.push(22);
+                    // a custom token registered BEFORE the pause: linking it while paused is refused because of the pause, not for a missing manager
+                    { let u0c = g.users[0].clone(); let saltc = vec![0x6bu8; 32]; let opz = g.operator.clone();
+                      let (okc, retsc, depc) = g.its_tx("registerCustom", &u0c, "registerCustomToken", vec![saltc.clone(), tok2.clone(), vec![2u8], opz.to_vec()], 0, &[],
+                          json!({"salt": hx(&saltc), "token": hx(&tok2), "ty": 2, "operator": hx(opz.as_bytes())}));
+                      if okc { g.toks.push(Tok { id: retsc.last().unwrap().clone(), kind: "lock", tm: depc.unwrap(), token: Some(tok2.clone()), salt: saltc, deployer: u0c, supply: 0, minter: vec![], custody: 0 }); } }
                     let ow = g.owner.clone();
                     let (okp, _, _) = g.its_tx("pause", &ow, "pause", vec![], 0, &[], json!({"paused": true})); if okp { g.paused = true; }
-                    script.extend([1602u64, 1702, 1802, 1600, 3090, 3290, 3590, 3291, 3490, 3990, 56, 57, 58, 10, 1602]);
+                    script.extend([1602u64, 1702, 1802, 1600, 3090, 3290, 3590, 3291, 3490, 3990, 56, 57, 58, 60, 61, 10, 1602, 61]);
                 }
                 else if d == 10 {   // inbound battery: every routing variant for a transfer without data, the main ones for transfers with data and deployments
                     for v in 0..21u64 { script.push(1600 + v); }
@@ -246,7 +256,7 @@ pub fn run(seed: u64, ntraces: usize) {
                 }
                 else if d == 11 {   // the service is paused while a transfer with data is in flight: failed and successful delivery, direct and hub-wrapped
                     script.extend([1700u64, 10, 21, 20, 10, 1702, 10, 20, 20, 10, 1700, 21, 10, 20, 10, 1700, 1700, 21, 24, 20, 20]);
-                    script.extend([1700u64, 28, 197, 25, 28, 197, 24, 197]);      // six hours pass in each window of a delivery: the message stays locked   // last part: a delivery fails while another of the same token is in flight
+                    script.extend([1700u64, 28, 197, 25, 28, 197, 24, 197]); script.extend([1702u64, 197, 25, 197, 24, 197]);      // six hours pass in each window of a delivery: the message stays locked   // last part: a delivery fails while another of the same token is in flight
                 }
                 else if d == 12 {   // outbound battery: payment shapes x destination routing, with gas
                     // first: a mint/burn manager (custom token OTH) that also holds the burn role of TOK is paid with TOK: refused; then with its own token: burned
@@ -286,7 +296,7 @@ pub fn run(seed: u64, ntraces: usize) {
                         g.its_tx("deployRemoteCanonical", &u2, "deployRemoteCanonicalInterchainToken", vec![tk.clone(), vec![]], gasv, &[], json!({"token": hx(&tk), "dchain": ""})); }
                     // (b) the trusted address of the source chain is removed / replaced while a transfer with data is in flight and restored afterwards:
                     //     the delivered message must end up executed and a second execute must be refused
-                    script.extend([22u64, 56, 80, 1700, 51, 25, 24, 53, 197, 1700, 25, 54, 1600, 24, 53, 197, 1702, 52, 25, 24, 55, 197, 70, 26, 26, 57, 26, 26, 77, 78, 26]);
+                    script.extend([22u64, 56, 80, 1700, 51, 1600, 25, 24, 53, 197, 1700, 25, 54, 1600, 24, 53, 197, 1702, 52, 25, 24, 55, 197, 70, 26, 26, 57, 26, 26, 77, 78, 26]);
                 }
                 else {              // d == 13: message-type words outside the known range, direct and hub-wrapped
                     for i in 0..6u64 { script.push(2000 + i); script.push(2100 + i); }
